@@ -891,4 +891,25 @@ def r17_11_offset_bucket_range(ctx: Ctx) -> RuleResult:
             rr.fail(f.qual, f"a parsed total of {s} seconds is {'rejected' if v.lo else 'accepted'}; the Offset range is [-64800, 64800] inclusive", ctx.loc(f, g))
         else:
             rr.fail(f.qual, f"the out-of-range guard `{unparse(g.test)[:80]}` could not be evaluated at {s} seconds (not decided)", ctx.loc(f, g))
+    # the value that is built: sign x (hours, minutes, seconds), evaluated from exact bucket fields
+    from ..absint import Obj
+
+    for h, m_, s_, neg in ((5, 30, 15, 0), (5, 30, 15, 1), (0, 0, 30, 1), (17, 59, 59, 1), (0, 0, 0, 1), (18, 0, 0, 0)):
+        rr.inst()
+        seen: list = []
+
+        def on_call(c, callee, bound, st, fn, seen=seen):
+            if callee.name == "from_seconds":
+                seen.append(bound.get("seconds"))
+
+        I = interp(ctx)
+        I.on_call = on_call
+        so = Obj("_OffsetParseBucket", {"_hours": Iv(h, h), "_minutes": Iv(m_, m_), "_seconds": Iv(s_, s_), "_is_negative": Iv(neg, neg)})
+        I.analyse(f, self_obj=so, params={})
+        want = (-1 if neg else 1) * (3600 * h + 60 * m_ + s_)
+        got = {int(v.lo) for v in seen if isinstance(v, Iv) and v.lo == v.hi}
+        if got == {want}:
+            rr.ok({"fields": (h, m_, s_, bool(neg)), "seconds": want})
+        else:
+            rr.fail(f.qual, f"parsed fields {'-' if neg else '+'}{h:02d}:{m_:02d}:{s_:02d} build an offset of {sorted(got) or seen} seconds, not {want}: the sign must apply to the whole of hours, minutes and seconds", ctx.loc(f))
     return rr
